@@ -912,7 +912,7 @@ pub fn run(opts: &Opts) -> i32 {
   let thorough = opts.thorough();
   let known: Vec<String> = opts.known();
   let wp = WalkParams { n_max: if thorough { 5 } else { 4 }, max_len: if thorough { 90 } else { 60 } };
-  let n_gen = opts.num("layouts", if thorough { 30000 } else { 1500 }) as usize;
+  let n_gen = opts.num("layouts", if thorough { 60000 } else { 4000 }) as usize;
   let walks_gen = opts.num("walks", if thorough { 40 } else { 30 }) as usize;
   let walks_corpus = opts.num("corpus_walks", if thorough { 6000 } else { 400 }) as usize;
 
